@@ -70,15 +70,20 @@ def configs(tier: str, seed: int):
                     continue  # quick: plain, self-unsubscribing, and subscribing+self-unsubscribing observers
                 cfgs.append({"kind": "replay", "bs": bs, "window": w, "scripts": s, "values": vals, "err": "plain"})
                 depths.append(5 if tier == "quick" else (8 if si == 0 else 7))
+    # self-check of the state key (subjref.audit_merges): every merge re-validated by extending both histories
+    for (bs, w, s) in ([(1, 10, SCRIPTS[3])] if tier == "quick" else [(1, 10, SCRIPTS[3]), (2, 10, SCRIPTS[0]), (None, 1000, SCRIPTS[1])]):
+        cfgs.append({"kind": "replay", "bs": bs, "window": w, "scripts": s, "values": vals, "err": "plain", "audit": 3 if tier == "quick" else 4})
+        depths.append(0)
     return cfgs, depths
 
 
 def run(ctx: core.Ctx):
     cfgs, depths = configs(ctx.tier, ctx.seed)
     sizes, windows = grid(ctx.tier)
-    ctx.bounds = {"depth": {"plain observers": max(depths), "scripted observers": min(depths)}, "observers": 3, "buffer_size": repr(sizes),
+    real = [d for d in depths if d]
+    ctx.bounds = {"depth": {"plain observers": max(real), "scripted observers": min(real)}, "observers": 3, "buffer_size": repr(sizes),
                   "window": repr(windows), "ticks": [5, 10], "script_configurations": sorted({subjref.script_tag(c) for c in cfgs}),
-                  "configurations": len(cfgs), "values": repr(cfgs[0]["values"])}
+                  "configurations": len(real), "values": repr(cfgs[0]["values"])}
     ctx.assumptions = [
         "observers subscribe through the public Observable.subscribe (AutoDetachObserver in front of every observer)",
         "single thread; the scheduler is a virtual-time scheduler run to quiescence after every event (no event happens while notifications are in flight, except from inside a callback)",
